@@ -135,6 +135,12 @@ func ZZ_C20_Sequence(scenario, budget, maxPoints, looks int) {
 
 	mgr := NewManager(context.Background(), nil, conf)
 	zzvrf.Scheduled(budget, maxPoints)
+	if scenario != 0 {
+		// the set-up (start-up and the first restart) runs along one
+		// representative schedule; enumeration starts at the last restart
+		// (the first restart under every schedule is ZZ_C20_Restart's subject)
+		zzvrf.SchedFreeze(true)
+	}
 	ec := make(chan error)
 	go mgr.Run(ec)
 	err := <-ec
@@ -175,6 +181,7 @@ func ZZ_C20_Sequence(scenario, budget, maxPoints, looks int) {
 	}
 	previous = append(previous, current...)
 	restartReturned = false
+	zzvrf.SchedFreeze(false)
 	var rerr error
 	panicked := false
 	func() {
